@@ -1,10 +1,18 @@
 #!/bin/bash
-# Build the framework from files on disk only (offline).
+# Build the framework from files on disk only (offline): harness, translator output, Lean model,
+# driver and every property module (so that each check only re-checks what the source changed).
 set -e
 cd "$(dirname "$0")"
 export GOFLAGS=-mod=mod GOPROXY=off
 unset GOTOOLCHAIN GOSUMDB
 mkdir -p build evidence replays
 python3 tools/gen_tables.py
-(cd lean && lake build Anonymongo driver 2>&1 | tail -5)
+MODS=$(python3 -c "
+import sys; sys.path.insert(0,'tools')
+from registry import PROPS
+m=set()
+for p in PROPS.values():
+    m.add(p['module']); m.update(p.get('extra_modules',[]))
+print(' '.join(sorted(m)))")
+(cd lean && lake build Anonymongo driver $MODS 2>&1 | tail -3)
 echo "setup done"
